@@ -1795,6 +1795,12 @@ class FuncEmitter:
                 return '(%s%s)' % (op, x)
             if t0.k == 'iter' and t0.fam == 'list':
                 m = self.model_for_iter(t0, e)
+                sa0 = self.strip_wrappers(a0)
+                while sa0['kind'] in ('MaterializeTemporaryExpr', 'ImplicitCastExpr', 'ExprWithCleanups', 'CXXBindTemporaryExpr') and sa0.get('inner'):
+                    sa0 = sa0['inner'][0]
+                if sa0['kind'] in ('CXXMemberCallExpr', 'CallExpr', 'CXXOperatorCallExpr', 'CXXConstructExpr'):
+                    # ++/-- applied to a temporary (`--list.end()`): only the value is used
+                    return '%s_%s(%s, %s)' % (m.name, 'next' if op == '++' else 'prev', self.pool(m), x)
                 return '(%s = %s_%s(%s, %s))' % (x, m.name, 'next' if op == '++' else 'prev', self.pool(m), x)
             if t0.k == 'iter' and t0.fam == 'tree' and op == '++' and self.model_for_iter(t0, e).kind == 'mmap':
                 m = self.model_for_iter(t0, e)
